@@ -13,7 +13,7 @@ from unitgen import Raw, Prelude, Item, Rewrite, Fragment
 NAME = 'u_modes'
 PROPERTIES = ['C02', 'C04']
 CONTRACTS = 'u_modes.contracts'
-SHARED_CONTRACTS = ['u_tmpl.contracts', 'u_fcontent.contracts', 'u_stack.contracts', 'u_aaa.contracts']
+SHARED_CONTRACTS = ['u_tmpl.contracts', 'u_fcontent.contracts', 'u_stack.contracts', 'u_aaa.contracts', 'u_misa.contracts']
 RLIMIT = 60
 H = u_stack.H
 R = u_tmpl.R
